@@ -129,4 +129,16 @@ theorem setArg_callsAlong (cfg : Cfg) (evs : List Event) : ∀ h : HState,
     | advance dt => simp [loadedBy]
     | check force jit e l => rw [setArg_callsOf force h.now e l h.rs jit]
 
+/-- the source-level check (`wcheck`, over which the convergence theorems are stated) is the observation-level `check` on what the
+    source answered: `etag()` on the source state at the start, `load()` on the state after the mid-check change — so what is proved
+    about `check` for the translated method carries over to `wcheck` / `wrun` -/
+theorem wcheck_eq_check {σ : Type} (S : Source σ) (cfg : Cfg) (force : Bool) (jit : Int → Int) (mid : σ → σ) (w : WState σ) :
+    (wcheck S cfg force jit mid w).1.rs = (check cfg force w.now jit (S.etag w.src).1 (S.load (mid (S.etag w.src).2)).1 w.rs).1 ∧
+    (wcheck S cfg force jit mid w).2 = (check cfg force w.now jit (S.etag w.src).1 (S.load (mid (S.etag w.src).2)).1 w.rs).2 := by
+  unfold wcheck check
+  cases suppressed force w.now w.rs
+  · simp only [Bool.false_eq_true, if_false]
+    cases afterEtag force w.rs.lastEtag (S.etag w.src).1 w.rs <;> exact ⟨rfl, rfl⟩
+  · exact ⟨rfl, rfl⟩
+
 end Rbacx.PyR
